@@ -81,13 +81,13 @@ PLAN["C18"] = dict(
     thorough=[("time_tree4", dict(cap=2700)), ("time_lc5", dict(cap=4000)), ("time_att4", dict(cap=2200)), "lc_open", "scope_open"],
 )
 PLAN["C13"] = dict(
-    quick=["poll_fut_c", "poll_fut_d", "poll_eop", "poll_fut2_c", "poll_under_lp"],
-    thorough=["poll_fut_c", "poll_fut_d", "poll_eop", "poll_fut2_c", "poll_fut6_c", "poll_under_lp"],
-    vacuity=[("poll_fut_c", ["FixInSpan"])],
+    quick=["poll_fut_c", "poll_fut_d", "poll_eop", "poll_fut2_c", "poll_under_lp", ("poll_hold_c", dict(shuffle=8, shuffle_programs=400)), "poll_hold_d"],
+    thorough=["poll_fut_c", "poll_fut_d", "poll_eop", "poll_fut2_c", "poll_fut6_c", "poll_under_lp", ("poll_hold_c", dict(shuffle=40, shuffle_programs=400)), "poll_hold_d"],
+    vacuity=[("poll_fut_c", ["FixInSpan"]), ("poll_hold_c", [], "span-before-inner")],
 )
 PLAN["C14"] = dict(
-    quick=["poll_str_c", "poll_snk_c", "poll_ss_d", "poll_under_lp"],
-    thorough=["poll_str_c", "poll_snk_c", "poll_ss_d", "poll_ss6_c", "poll_under_lp"],
+    quick=["poll_str_c", "poll_snk_c", "poll_ss_d", "poll_under_lp", ("poll_hold_c", dict(shuffle=8, shuffle_programs=400)), "poll_hold_d"],
+    thorough=["poll_str_c", "poll_snk_c", "poll_ss_d", "poll_ss6_c", "poll_under_lp", ("poll_hold_c", dict(shuffle=40, shuffle_programs=400)), "poll_hold_d"],
     vacuity=[("poll_str_c", ["FixInSpan"])],
 )
 PLAN["C16"] = dict(
